@@ -24,7 +24,7 @@ EXPLANATION = (
     "The intermediate-state, secular-matrix-table and ground-state layers are checked by the C04/C03/C02 rules, run here too.")
 ASSUMPTIONS = [
     "equality with explicit matrix elements is not decided",
-    "skeletons are evaluated for orders 0..3 and the listed blocks/spaces only (bounded)",
+    "skeletons are evaluated for orders 0..3 (thorough tier: 0..4) and the listed blocks/spaces only (bounded)",
 ]
 
 PR = dx.PR
@@ -82,10 +82,10 @@ def r05a_block(ctx):
     rule = "R05a"
     fn = ctx.model.fn(PR + ".expec_block_contribution")
     n = 0
-    for order in (0, 1, 2, 3):
+    for order in dx.orders(ctx, (0, 1, 2, 3), (4,)):
         for block in (("ph", "ph"), ("ph", "pphh"), ("pphh", "ph"), ("pphh", "pphh"), ("h", "phh"), ("phh", "h"), ("phh", "phh"),
                       ("p", "pph"), ("pph", "pph"), ("hh", "phhh")):
-            if order == 3 and block != ("ph", "ph"):
+            if order >= 3 and block != ("ph", "ph"):
                 continue
             if order == 2 and block[0] not in ("ph", "h"):
                 continue
@@ -148,7 +148,7 @@ def r05a_tm(ctx):
         for lr in ("left", "right"):
             if variant_r is not None and lr == "left":
                 continue
-            for order in (0, 1, 2):
+            for order in dx.orders(ctx, (0, 1, 2), (3,)):
                 if lr == "right" and order != 1:
                     continue
                 scen = dx.Scenario(variant=variant)
